@@ -7,6 +7,7 @@ import (
 	"io/ioutil"
 	"math/rand"
 	"os"
+	"strings"
 	"sync"
 	"sync/atomic"
 	"time"
@@ -535,8 +536,44 @@ func (h *harness) leaderChange(rng *rand.Rand, cycles int) {
 // the way pd-server does it (server context cancelled BEFORE the storage is closed) followed by a
 // start from disk.
 
+// canonicalRegionStorageResurrection: the minimal history of the finding "a region saved and then
+// displaced before the write batch is flushed comes back to storage with the flush".
+func (h *harness) canonicalRegionStorageResurrection() {
+	r := h.r
+	dir, err := ioutil.TempDir("", "verif_c06_rs")
+	if err != nil {
+		return
+	}
+	defer os.RemoveAll(dir)
+	t, err := newLightRS(3, dir)
+	if err != nil {
+		r.Inconclusive("region storage: %v", err)
+		return
+	}
+	defer t.CloseRS()
+	plan := []*world.Snapshot{snapR(0, 1, "a", "c", 1), snapR(1, 2, "a", "c", 2)}
+	var errs []string
+	for _, s := range plan {
+		errs = append(errs, fmt.Sprint(t.Deliver(s)))
+	}
+	loadableBefore := t.Loadable(1)
+	ferr := t.rs.FlushRegion()
+	o := t.Observe()
+	r.Eval(1)
+	if _, served := o.ByID[1]; !served && t.Loadable(1) {
+		r.Count("canonical_region_storage_resurrection_reproduced", 1)
+		r.Violation("displaced-region-still-stored:region-storage-after-flush",
+			"heartbeats handled one at a time on a storage with region storage enabled (the server default): region 1 [a,c) v1 is accepted (its record goes to the write batch), region 2 [a,c) v2 is accepted and displaces it (DeleteRegion removes the key from leveldb only, the copy in the batch stays), the batch is flushed: region 1 is loadable from storage again although it was displaced",
+			map[string]interface{}{"mode": "region-storage-after-flush:light:canonical", "deliveries": describePlan(plan), "answers": errs,
+				"region_1_loadable_before_flush": loadableBefore, "flush_error": fmt.Sprint(ferr), "state_after_flush": o.describe()})
+	} else {
+		r.Count("canonical_region_storage_resurrection_not_reproduced", 1)
+	}
+}
+
 func (h *harness) regionStorageWorlds(rng *rand.Rand, n int) {
 	r := h.r
+	h.canonicalRegionStorageResurrection()
 	for i := 0; i < n; i++ {
 		p := genParams(rng, 12, 8, 140, 1, false)
 		p.Plan.StaleP, p.Plan.DropP = 0.05, 0.05
@@ -557,6 +594,7 @@ func (h *harness) regionStorageWorlds(rng *rand.Rand, n int) {
 			return
 		}
 		snaps := snapsOf(plan)
+		t.flushAt = len(snaps) / 2
 		fs, st := judgeSeq(t, snaps, false)
 		r.Eval(1)
 		r.Count("worlds_region_storage", 1)
@@ -568,11 +606,17 @@ func (h *harness) regionStorageWorlds(rng *rand.Rand, n int) {
 		h.report(fs, snaps, p.Cfg.Stores, base, "sequential:light:region-storage")
 		clean := len(fs) == 0
 		// displaced regions are gone from storage once the write batch has been flushed
-		if err := t.rs.FlushRegion(); err != nil {
-			r.Inconclusive("FlushRegion: %v", err)
+		cancelFirst := i%2 == 0
+		if !cancelFirst {
+			if err := t.rs.FlushRegion(); err != nil {
+				r.Inconclusive("FlushRegion: %v", err)
+			}
 		}
 		before := t.Observe()
 		for id := range st.displaced {
+			if cancelFirst {
+				break // nothing flushed explicitly: the shutdown below has to write the batch
+			}
 			if _, served := before.ByID[id]; served {
 				continue
 			}
@@ -586,7 +630,7 @@ func (h *harness) regionStorageWorlds(rng *rand.Rand, n int) {
 			}
 		}
 		// shutdown + start from disk
-		nt, err := t.RestartRS(i%2 == 0)
+		nt, err := t.RestartRS(cancelFirst)
 		if err != nil {
 			r.Inconclusive("region storage restart: %v", err)
 			os.RemoveAll(dir)
@@ -595,7 +639,7 @@ func (h *harness) regionStorageWorlds(rng *rand.Rand, n int) {
 		if clean {
 			after := nt.Observe()
 			mode := "region-storage-close-reopen:light"
-			if i%2 == 0 {
+			if cancelFirst {
 				mode = "region-storage-context-cancelled-before-close-reopen:light"
 			}
 			missing := 0
@@ -654,7 +698,14 @@ func (f *fakeHBStream) RecvMsg(interface{}) error    { return nil }
 func streamSend(t *fullTarget, req *pdpb.RegionHeartbeatRequest) (handlerErr error, processed bool) {
 	f := &fakeHBStream{ctx: context.Background(), in: make(chan *pdpb.RegionHeartbeatRequest), idle: make(chan struct{}, 1)}
 	done := make(chan error, 1)
-	go func() { done <- t.m.Srv.RegionHeartbeat(f) }()
+	go func() {
+		defer func() {
+			if p := recover(); p != nil {
+				done <- fmt.Errorf("PANIC in the stream handler: %v", p)
+			}
+		}()
+		done <- t.m.Srv.RegionHeartbeat(f)
+	}()
 	select {
 	case <-f.idle: // first Recv
 	case <-time.After(5 * time.Second):
@@ -729,6 +780,11 @@ func (h *harness) streamMalformed(t *fullTarget, idBase, verBase uint64) {
 		after := t.Observe()
 		r.Eval(1)
 		r.Count("grpc_stream_malformed_heartbeats", 1)
+		if herr != nil && strings.HasPrefix(herr.Error(), "PANIC") {
+			// a request no store sends (outside the histories the property quantifies over): counted and
+			// reported as a by-product; what it did to the served / stored regions is still judged
+			r.Count("grpc_stream_handler_panic|"+c.name, 1)
+		}
 		r.Distinct("stream|" + c.name)
 		if c.ambiguous {
 			r.Count("skipped_ambiguous", 1) // pd documents no convention for it
